@@ -123,6 +123,24 @@ Definition ident_de (j : json) : option (list str * str) :=
   | _ => None
   end.
 
+(* serde_json gives an integer token to a visitor that expects f64 as `z as f64` (visit_i64 / visit_u64 of the f64
+   primitive visitor).  Up to 2^53 the conversion is exact and the shortest round-trip text of the result is the decimal
+   text of the integer followed by `.0` (ryu switches to exponent form only from 1e16); larger integers round and are not
+   modelled (None). *)
+Definition two53 : Z := 9007199254740992%Z.
+Definition int_is_exact_float (z : Z) : bool := (Z.abs z <=? two53)%Z.
+Definition int_float_repr (z : Z) : str :=
+  (if (z <? 0)%Z then [45%N] else []) ++ print_dec (Z.abs_N z) ++ [46%N; 48%N].
+
+(* HashMap::insert: a later entry with the same key replaces the value (the map keeps one entry per key) *)
+Fixpoint insert_kv {A : Type} (k : str) (v : A) (l : list (str * A)) : list (str * A) :=
+  match l with
+  | [] => [(k, v)]
+  | (k', v') :: l' => if leqb k k' then (k, v) :: l' else (k', v') :: insert_kv k v l'
+  end.
+Definition dedup_last {A : Type} (l : list (str * A)) : list (str * A) :=
+  fold_left (fun acc kv => insert_kv (fst kv) (snd kv) acc) l [].
+
 Section WithEnv.
   Variable E : env.
 
@@ -311,8 +329,13 @@ Section WithEnv.
     Definition own_names (fs : list field) : list str :=
       map fname (filter (fun f => negb (fflatten f)) fs).
 
+    (* serde-derive's struct visitor: a second entry for a field of the struct is `duplicate field`; entries with other
+       keys (unknown, or candidates for a flattened enum) may repeat -- they are ignored / the first match is taken *)
+    Definition own_keys (own : list str) (kvs : list (str * json)) : list str :=
+      filter (fun k => mem k own) (keys kvs).
+
     Definition de_fields (fs : list field) (kvs : list (str * json)) : option (list value) :=
-      de_fields_own (own_names fs) fs kvs.
+      if nodupb (own_keys (own_names fs) kvs) then de_fields_own (own_names fs) fs kvs else None.
 
     Definition de_def (df : def) (j : json) : option value :=
       match df with
@@ -332,6 +355,7 @@ Section WithEnv.
 
     Definition de_prim (d : desc) (j : json) : option value :=
       match d, j with
+      | DFloat, JNum (NInt z) => if int_is_exact_float z then Some (VFloat (FFin (int_float_repr z))) else None
       | DStr, JStr s => Some (VStr s)
       | DInt lo hi, JNum (NInt z) => if (Z.leb lo z && Z.leb z hi)%bool then Some (VInt z) else None
       | DFloat, JNum (NFloat r) => Some (VFloat (FFin r))
@@ -354,7 +378,8 @@ Section WithEnv.
       | DOption d' => match j with JNull => Some VNone | _ => option_map VSome (de_body d' j) end
       | DVec d' => match j with JArr l => option_map VList (mapM (rec d') l) | _ => None end
       | DMap d' => match j with
-                   | JObj kvs => option_map VMap (mapM (fun kv => option_map (pair (fst kv)) (rec d' (snd kv))) kvs)
+                   | JObj kvs => option_map (fun l => VMap (dedup_last l))
+                                            (mapM (fun kv => option_map (pair (fst kv)) (rec d' (snd kv))) kvs)
                    | _ => None
                    end
       | DTuple ds => match j with JArr l => option_map VTuple (de_tuple ds l) | _ => None end
